@@ -2,6 +2,7 @@ package nodes
 
 import (
 	"fmt"
+	"sort"
 	"strconv"
 	"strings"
 
@@ -225,6 +226,13 @@ func (sn Struct[T, G]) Dependencies() []NodeDependency {
 			})
 		}
 	}
+
+	// The reflection helpers hand the fields back in maps. The versions seen at
+	// the last execution are remembered by position (depVersions), so the
+	// dependencies have to come back in the same order on every call.
+	sort.SliceStable(output, func(i, j int) bool {
+		return output[i].Name() < output[j].Name()
+	})
 	return output
 }
 
